@@ -49,7 +49,9 @@ CURRENCIES = ['${amount}', '{amount} zl', '€{amount}', '£{amount}']
 def gen_txns(rnd):
     merch = rnd.sample(MERCH, rnd.randint(1, 7))
     cat_of = {m: rnd.choice(CATS) for m in merch}
-    special = {m: rnd.choice([[], [], [], ['income'], ['Transfer'], ['investment'], ['INCOME', 'x'], ['recurring']]) for m in merch}
+    # (the last three are ORDINARY tags: letters that only a Unicode case fold, not lower-casing, maps onto a special word)
+    special = {m: rnd.choice([[], [], [], ['income'], ['Transfer'], ['investment'], ['INCOME', 'x'], ['recurring'], ['tran\u017ffer'], ['inve\u017ftment'],
+                              ['\u0131ncome', 'q']]) for m in merch}
     out = []
     hostile = 0
     for i in range(rnd.randint(1, 30)):
